@@ -26,7 +26,7 @@ import numpy as np
 from mc import combi
 from mc import runner as _runner
 from mc.ref import c01_ref as ref
-from mc.util import close, fingerprint, reldev, rng_for, spd
+from mc.util import close, reldev, rng_for, spd
 
 PROPERTY = 'C01'
 LEVEL = 'exploration'
@@ -47,7 +47,12 @@ RULE = ('Every set partition of n observations into condition labels x label nam
         'of method configurations (first call as single dataset / one-element list / same object '
         'twice in a list; movies likewise) and chains of all configurations, each result judged '
         'against the originally supplied data and the inputs required bit-identical after every '
-        'call.  One evaluation = one real calc_rdm / '
+        'call; the structures re-run with measurements x1e-5 / x1e4 and precisions x1e-8 / x1e6 '
+        '(relative tolerance); condition labels 100000+k, 1696300000.0+0.5k and strings that are '
+        'prefixes of / differ by a blank from each other, as list and ndarray, through single, '
+        'list, stacked and movie input.  After EVERY call all caller-owned arguments (dataset '
+        'measurements, every descriptor dict, precision(s), bins) must be bit-identical.  '
+        'One evaluation = one real calc_rdm / '
         'calc_rdm_movie call whose every returned entry, label and descriptor was judged; '
         'non-trivial = at least one pair value was defined and compared; distinct = distinct '
         'case descriptor (generator parameters).')
@@ -61,14 +66,18 @@ ASSUMPTIONS = [
     'channel) are excluded and counted',
     'a pattern descriptor other than the condition descriptor is only required to be right when '
     'present, not required to be present; dataset descriptors are required on the right RDM',
-    'calc_rdm / calc_rdm_movie must leave the dataset and precision they are given bit-identical '
-    '(otherwise the values of later calls on the same object no longer equal the formula on the '
-    'supplied data); checked only in the sequence family',
+    'calc_rdm / calc_rdm_movie must leave the dataset(s), precision(s) and bins they are given '
+    'bit-identical incl. dtypes, keys and container types (otherwise the values of later calls on '
+    'the same objects no longer equal the formula on the supplied data); checked after every call',
+    'scaled data: a correct evaluation may err by a small multiple of 1e-16 times the magnitude of '
+    'the terms it sums (ref.magnitude); allowed 1e-9*|value| + 1e-12*magnitude',
     'lists of datasets without condition descriptor are only generated with identical obs '
     'descriptors or with all-distinct labels (then the returned labels define the alignment)',
 ]
 TOL = 1e-9
-TOLERANCES = {'value': TOL, 'time-label': 1e-9}
+TOL_MAG = 1e-12
+TOLERANCES = {'value': TOL, 'time-label (relative)': 1e-12,
+              'scaled data: |got-want| <=': '1e-9*|want| + 1e-12*magnitude of the summed terms'}
 BOUNDS = {
     'quick': {'n_obs': '1..5, every set partition (75); row permutations: all for n<=4, 4 for n=5',
               'n_channel x (container,dtype,extra) slots': 8, 'n_channel': [1, 2, 3], 'fills': 1,
@@ -81,6 +90,10 @@ BOUNDS = {
               'tierA': '{0,1,2}^(n x P): (2,1..3) (3,1..2) (4,1), every partition, 6 method configurations',
               'movie': {'n_time': [1, 3], 'n_obs': [1, 3], 'n_channel': [1, 2, 3],
                         'binnings': 'none + every partition of the time points, both bin orders'},
+              'scales': 'measurements x1e-5, x1e4; precision x1e-8, x1e6 and two mixed; n_obs 1..3 (+5 of n=4), '
+                        'all 16 method configurations, single/one-element list/list of two/movie',
+              'labels': '100000+k, 1696300000.0+0.5k, prefix strings; list and ndarray; every partition n<=4, '
+                        'every pair of partitions n<=3, every row order n<=4 (stack), movies n_time 2',
               'time_axes': '8 axes x 3 storage orders x every binning of n_time 1..3 x 7 label structures x 4 '
                            'methods (row-per-observation movies on a quarter)',
               'sequences_on_one_object': 'n_obs 2..3, n_channel 2..3, float and int, descriptor and None: all '
@@ -148,11 +161,34 @@ def _mconfs(listnoise=False, rm=True):
 _NAMING_CACHE = {}
 
 
+PREFIX_POOL = ['stim10', 'stim1', 'stim1 ', 'stim100', 'stim01', 'stim', 'stim 1', 'Stim1', 'stim1.0',
+               'stim11', ' stim1', 'stim1_']
+LABEL_TAGS = ['big', 'unixf', 'prefix']      # labels that are large / close together / prefixes of each other
+
+
+def _zigzag(k):
+    """0..k-1 as k-1, 0, k-2, 1, ... (neither ascending nor descending)"""
+    lo, hi, out = 0, k - 1, []
+    while lo <= hi:
+        out.append(hi)
+        if lo < hi:
+            out.append(lo)
+        lo, hi = lo + 1, hi - 1
+    return out
+
+
 def _naming(k, tag):
     key = (k, tag)
     if key not in _NAMING_CACHE:
-        for t, names in combi.namings(k):
-            _NAMING_CACHE[(k, t)] = list(names)
+        if tag == 'big':            # six-digit ints next to each other
+            _NAMING_CACHE[key] = [100000 + i for i in _zigzag(k)]
+        elif tag == 'unixf':        # large floats half a unit apart
+            _NAMING_CACHE[key] = [1696300000.0 + 0.5 * i for i in _zigzag(k)]
+        elif tag == 'prefix':       # strings one of which is a prefix of / differs by a blank from another
+            _NAMING_CACHE[key] = PREFIX_POOL[:k]
+        else:
+            for t, names in combi.namings(k):
+                _NAMING_CACHE[(k, t)] = list(names)
     return _NAMING_CACHE[key]
 
 
@@ -163,15 +199,15 @@ def _naming_tags(k):
 def _extra_of(label):
     """constant-within-condition extra descriptor: a function of the label itself"""
     if isinstance(label, str):
-        return 'e%d' % (int(label[-1]) % 2)
-    return 'e%d' % (int(label) % 2)
+        return 'e%d' % (sum(ord(ch) for ch in label) % 2)
+    return 'e%d' % (int(2 * label) % 2 if isinstance(label, float) else int(label) % 2)
 
 
 _FILL_CACHE = {}
 
 
-def _fill(seed, shape, dtype, fill, poisson, key=0):
-    k = (seed, tuple(shape), dtype, fill, bool(poisson), key)
+def _fill(seed, shape, dtype, fill, poisson, key=0, scale=None):
+    k = (seed, tuple(shape), dtype, fill, bool(poisson), key, scale)
     hit = _FILL_CACHE.get(k)
     if hit is not None:
         return hit
@@ -192,6 +228,8 @@ def _fill(seed, shape, dtype, fill, poisson, key=0):
             x = np.round(g.uniform(5.0, 9.0, size=shape), 3)
     if poisson:
         x = np.abs(x)
+    if scale:
+        x = x * scale if dtype != 'int' else x * int(scale)
     x = x.tolist()
     if len(_FILL_CACHE) > 256:
         _FILL_CACHE.clear()
@@ -202,10 +240,12 @@ def _fill(seed, shape, dtype, fill, poisson, key=0):
 _PREC_CACHE = {}
 
 
-def _precision(kind, n_ch, seed, which=0):
+def _precision(kind, n_ch, seed, which=0, nscale=None):
     """precision matrix of the given kind (a fresh copy each call; the library may keep it)"""
     if kind == 'none':
         return None
+    if nscale:
+        return _precision(kind, n_ch, seed, which) * nscale
     if kind == 'eye':
         return np.eye(n_ch)
     key = (kind, n_ch, seed, which)
@@ -273,6 +313,60 @@ def _call(ctx, op, cls, case, fn):
         return False, None
 
 
+# ----------------------------------------------------------------------------- arguments stay untouched
+def _freeze(v):
+    """bit-level, type-sensitive image of one argument (cheap: tuples and bytes, compared by ==)"""
+    if isinstance(v, np.ndarray):
+        if v.dtype == object:
+            return ('nd', 'O', v.shape, repr(v.tolist()))
+        return ('nd', v.dtype.str, v.shape, v.tobytes())
+    if isinstance(v, dict):
+        return ('dict',) + tuple((k, _freeze(x)) for k, x in v.items())
+    if isinstance(v, (list, tuple)):
+        if v and isinstance(v[0], np.ndarray):
+            return (type(v).__name__,) + tuple(_freeze(x) for x in v)
+        return (type(v).__name__, repr(v))
+    return (type(v).__name__, repr(v))
+
+
+def _snapshot(datasets, **arrays):
+    """[(argument name, frozen image)] of every caller-owned argument of one estimator call"""
+    out = []
+    for ds in datasets:
+        out.append(('dataset.measurements', _freeze(ds.measurements)))
+        out.append(('dataset.obs_descriptors', _freeze(ds.obs_descriptors)))
+        out.append(('dataset.descriptors', _freeze(ds.descriptors)))
+        out.append(('dataset.channel_descriptors', _freeze(ds.channel_descriptors)))
+        if hasattr(ds, 'time_descriptors'):
+            out.append(('dataset.time_descriptors', _freeze(ds.time_descriptors)))
+    for name, val in arrays.items():
+        if val is not None:
+            out.append((name, _freeze(val)))
+    return out
+
+
+def _check_untouched(ctx, case, op, cls, before, datasets, **arrays):
+    """after the call: every argument bit-identical (values, dtypes, keys, container types)"""
+    after = _snapshot(datasets, **arrays)
+    if after == before:
+        return True
+    seen = set()
+    for (name, x), (_, y) in zip(before, after):
+        if x != y and name not in seen:
+            seen.add(name)
+            ctx.fail('%s|%s|modifies-argument:%s' % (op, cls, name), case,
+                     'the call changed its argument %s in place (values, dtype, keys or container type)' % name)
+    if not seen:
+        ctx.fail('%s|%s|modifies-argument:structure' % (op, cls), case, 'number of argument parts changed')
+    return False
+
+
+def _acls(op, form, case, mconf):
+    """configuration class for argument findings: the value class of the judge"""
+    cls = _mtag(mconf) if op == 'calc_rdm_movie' else '%s,%s' % (form.split('(')[0], _mtag(mconf))
+    return cls
+
+
 # ----------------------------------------------------------------------------- the oracle
 def _mtag(mconf):
     s = 'method=%s' % mconf['method']
@@ -310,6 +404,9 @@ def _judge(ctx, case, op, form, mconf, rdms, models, keymode, r_to_model=None):
         scls, vcls = form, _mtag(mconf)
         if AXIS_CLASS.get(case.get('taxis')):
             vcls += ',time-axis=' + AXIS_CLASS[case['taxis']]
+    if case.get('scale') or case.get('nscale'):
+        vcls += ',scaled'
+    scaled = bool(case.get('scale') or case.get('nscale'))
     method = mconf['method']
 
     def fail(kind, msg, value=False):
@@ -385,6 +482,7 @@ def _judge(ctx, case, op, form, mconf, rdms, models, keymode, r_to_model=None):
     for r in range(n_rdm):
         m = models[r_to_model[r]]
         order, table = ref.expected_table(m['rows'], m['keys'], method, **m['opts'])
+        mags = ref.magnitude_table(m['rows'], m['keys'], method, **m['opts']) if scaled else None
         where = [ref.find_label(lab, order) for lab in ret]
         for k, (i, j) in enumerate(pairs):
             got = diss[r, k]
@@ -399,8 +497,17 @@ def _judge(ctx, case, op, form, mconf, rdms, models, keymode, r_to_model=None):
                 ctx.exclude('%s undefined for the pair (constant pattern / one channel)' % method)
                 continue
             judged += 1
-            ctx.dev(method, reldev(got, want))
-            if not close(got, want, TOL):
+            if scaled:
+                # data / precision not of order one: relative tolerance plus the rounding floor of the
+                # terms the formula adds up (mc.ref.c01_ref.magnitude)
+                allowed = TOL * abs(want) + TOL_MAG * mags[(a, b) if a < b else (b, a)]
+                err = abs(float(got) - want)
+                ctx.dev('scaled:' + method + ' (error/allowed)', err / allowed if allowed > 0 else float(err > 0))
+                good = err <= allowed
+            else:
+                ctx.dev(method, reldev(got, want))
+                good = close(got, want, TOL)
+            if not good:
                 fail('value-mismatch', 'RDM %d pair (%r,%r): got %.12g, formula on condition means %.12g' % (
                     r, ret[i], ret[j], got, want), value=True)
         if r == 0 and table:
@@ -457,7 +564,7 @@ def _single_model(case, seed):
         digits = digits[::-1]
         base = [digits[o * n_ch:(o + 1) * n_ch] for o in range(n)]
     else:
-        base = _fill(seed, (n, n_ch), case['dtype'], case['fill'], poisson)
+        base = _fill(seed, (n, n_ch), case['dtype'], case['fill'], poisson, scale=case.get('scale'))
     labels_o = [names[part[o]] for o in range(n)]
     if case['extra'] == 'const':
         extra_o = [_extra_of(lab) for lab in labels_o]
@@ -477,7 +584,8 @@ def _run_single(case, ctx):
     rows, labels, extra = _single_model(case, ctx.seed)
     n_ch = case['P']
     mconf = case
-    prec = _precision(case.get('prec', 'none'), n_ch, ctx.seed) if case['method'] == 'mahalanobis' else None
+    prec = _precision(case.get('prec', 'none'), n_ch, ctx.seed, nscale=case.get('nscale')) \
+        if case['method'] == 'mahalanobis' else None
     desc = case['desc']
     obs = {'cond': _mk(labels, case['container'])}
     if extra is not None:
@@ -494,7 +602,9 @@ def _run_single(case, ctx):
         arg = ds
     kw = _lib_kwargs(mconf, noise)
     cls = '%s,%s' % (form, 'descriptor' if desc else 'no-descriptor')
+    snap = _snapshot([ds], noise=noise)
     ok, rdms = _call(ctx, 'calc_rdm', cls, case, lambda: calc_rdm(arg, descriptor=desc, **kw))
+    _check_untouched(ctx, case, 'calc_rdm', _acls('calc_rdm', form, case, mconf), snap, [ds], noise=noise)
     judged = 0
     if ok:
         model = {'rows': rows, 'labels': labels, 'extra': extra, 'subj': 's1', 'sess': 3,
@@ -516,7 +626,8 @@ def _pair_models(case, seed):
     out = []
     for which, (part, names) in enumerate(((p1, names1), (p2, names2))):
         n = len(part)
-        base = _fill(seed, (n, n_ch), case['dtype'], case['fill'], poisson, key=which + 1)
+        base = _fill(seed, (n, n_ch), case['dtype'], case['fill'], poisson, key=which + 1,
+                     scale=case.get('scale'))
         order = list(range(n))
         if which == 1 and case.get('perm2') == 'rev':
             order = order[::-1]
@@ -533,9 +644,10 @@ def _noise_for_list(case, n_ch, seed, n_ds):
     if case['method'] != 'mahalanobis':
         return None, [None] * n_ds
     if case['prec'] == 'perds':
-        precs = [_precision('full' if w % 2 == 0 else 'diag', n_ch, seed, which=w + 1) for w in range(n_ds)]
+        precs = [_precision('full' if w % 2 == 0 else 'diag', n_ch, seed, which=w + 1,
+                            nscale=case.get('nscale')) for w in range(n_ds)]
         return [p.copy() for p in precs], precs
-    prec = _precision(case['prec'], n_ch, seed)
+    prec = _precision(case['prec'], n_ch, seed, nscale=case.get('nscale'))
     return (None if prec is None else prec.copy()), [prec] * n_ds
 
 
@@ -569,8 +681,10 @@ def _run_pair(case, ctx):
         m['opts'] = _ref_opts(case, p)
     dss = _datasets(models, case)
     kw = _lib_kwargs(case, noise)
+    snap = _snapshot(dss, noise=noise)
     ok, rdms = _call(ctx, 'calc_rdm', 'list-input(n=2),descriptor', case,
                      lambda: calc_rdm(dss, descriptor='cond', **kw))
+    _check_untouched(ctx, case, 'calc_rdm', _acls('calc_rdm', 'list-input', case, case), snap, dss, noise=noise)
     judged = 0
     if ok:
         judged = _judge(ctx, case, 'calc_rdm', 'list-input(n=2)', case, rdms, models, 'label')
@@ -586,7 +700,8 @@ def _stack_models(case, seed):
     labels = [names[g] for g in part]
     out = []
     for which in range(2):
-        base = _fill(seed, (n, n_ch), case['dtype'], case['fill'], poisson, key=which + 1)
+        base = _fill(seed, (n, n_ch), case['dtype'], case['fill'], poisson, key=which + 1,
+                     scale=case.get('scale'))
         order = list(range(n))
         if which == 1 and case['mode'] == 'unique':
             order = list(case['perm2'])
@@ -607,8 +722,10 @@ def _run_stack(case, ctx):
         m['opts'] = _ref_opts(case, p)
     dss = _datasets(models, case)
     kw = _lib_kwargs(case, noise)
+    snap = _snapshot(dss, noise=noise)
     ok, rdms = _call(ctx, 'calc_rdm', 'list-input(n=2),no-descriptor', case,
                      lambda: calc_rdm(dss, **kw))
+    _check_untouched(ctx, case, 'calc_rdm', _acls('calc_rdm', 'list-input', case, case), snap, dss, noise=noise)
     judged = 0
     if ok:
         judged = _judge(ctx, case, 'calc_rdm', 'list-input(n=2)', case, rdms, models,
@@ -641,10 +758,11 @@ def _run_movie(case, ctx):
     names = _naming(max(part) + 1, case['naming'])
     labels = [names[g] for g in part]
     extra = [_extra_of(lab) for lab in labels] if case['extra'] == 'const' else None
-    data = _fill(ctx.seed, (n, n_ch, nt), 'float', case['fill'], poisson)
+    data = _fill(ctx.seed, (n, n_ch, nt), 'float', case['fill'], poisson, scale=case.get('scale'))
     times = _time_axis(case.get('taxis', 'small'), nt, case['torder'])
     groups = case['bins'] if case['bins'] is not None else [[t] for t in range(nt)]
-    prec = _precision(case.get('prec', 'none'), n_ch, ctx.seed) if case['method'] == 'mahalanobis' else None
+    prec = _precision(case.get('prec', 'none'), n_ch, ctx.seed, nscale=case.get('nscale')) \
+        if case['method'] == 'mahalanobis' else None
     opts = _ref_opts(dict(case, rm=False), prec)
     desc = case['desc']
     models = []
@@ -664,10 +782,14 @@ def _run_movie(case, ctx):
             bins = [[times[t] for t in grp] for grp in case['bins']]
         else:
             bins = [np.array([times[t] for t in grp]) for grp in case['bins']]
-    kw = _lib_kwargs(dict(case, rm=False), None if prec is None else prec.copy(), with_rm=False)
+    noise = None if prec is None else prec.copy()
+    kw = _lib_kwargs(dict(case, rm=False), noise, with_rm=False)
     cls = _movie_cls(case)
+    snap = _snapshot([tds], noise=noise, bins=bins)
     ok, rdms = _call(ctx, 'calc_rdm_movie', cls, case,
                      lambda: calc_rdm_movie(tds, descriptor=desc, time_descriptor='time', bins=bins, **kw))
+    _check_untouched(ctx, case, 'calc_rdm_movie', _acls('calc_rdm_movie', cls, case, dict(case, rm=False)),
+                     snap, [tds], noise=noise, bins=bins)
     judged = 0
     if ok:
         # structural findings are classed by the number of (binned) time points only
@@ -697,12 +819,6 @@ def _run_movie(case, ctx):
 
 
 # ----------------------------------------------------------------------------- sequences on one object
-def _input_print(ds, noise):
-    return fingerprint({'m': ds.measurements, 'o': ds.obs_descriptors, 'd': ds.descriptors,
-                        'c': ds.channel_descriptors, 't': getattr(ds, 'time_descriptors', None),
-                        'noise': noise})
-
-
 def _run_sequence(case, ctx):
     """case['steps'] = list of [method configuration, form]; all steps use the SAME dataset object.
 
@@ -748,7 +864,7 @@ def _run_sequence(case, ctx):
         ref_prec = None if prec is None else precs[mconf['prec']][1]     # never handed to the library
         mm = dict(mconf, rm=bool(mconf.get('rm')) and not movie)
         opts = _ref_opts(mm, ref_prec)
-        before = _input_print(ds, prec)
+        before = _snapshot([ds], noise=prec, bins=bins if movie else None)
         tag = _mtag(mm)
         if movie:
             kw = _lib_kwargs(mm, prec, with_rm=False)
@@ -793,12 +909,9 @@ def _run_sequence(case, ctx):
                                 r_to_model=r_to_model)
                 if sum(f['count'] for f in ctx.fails.values()) > nfail:
                     ctx.count('sequence_step_failed_after:%s' % (history[-1] if history else 'nothing'))
-        after = _input_print(ds, prec)
-        if after != before:
-            ctx.fail('%s|sequence-on-one-dataset,%s|input-changed' % ('calc_rdm_movie' if movie else 'calc_rdm', tag),
-                     sub, 'the call (%s, form %s, descriptor %r) altered its dataset / precision argument '
-                     '(fingerprint of measurements+descriptors+noise differs); calls before: %r' % (
-                         tag, form, desc, history))
+        _check_untouched(ctx, dict(sub, history=list(history)), 'calc_rdm_movie' if movie else 'calc_rdm',
+                         'sequence-on-one-dataset,%s' % tag, before, [ds], noise=prec,
+                         bins=bins if movie else None)
         history.append('%s/%s' % (tag, form))
         ctx.case(dict(case, step=si), nontrivial=judged > 0)
 
@@ -920,6 +1033,14 @@ def shards(tier, seed):
     for taxis in AXIS_ORDER:
         for torder in ('asc', 'desc', 'scr'):
             out.append({'kind': 'taxis', 'taxis': taxis, 'torder': torder})
+    # H: data and precision scales far from one (relative tolerances)
+    for scale, nscale in ((1e-5, None), (1e4, None), (None, 1e-8), (None, 1e6), (1e-5, 1e6), (1e4, 1e-8)):
+        for n_ch in (1, 2, 3):
+            out.append({'kind': 'scale', 'scale': scale, 'nscale': nscale, 'P': n_ch})
+    # I: condition labels that are large and close together / prefixes of each other
+    for tag in LABEL_TAGS:
+        for container in ('list', 'nd'):
+            out.append({'kind': 'labels', 'tag': tag, 'container': container})
     # G: sequences of calls on one dataset object (inputs must survive, results must not depend on history)
     for n in ((2, 3, 4) if th else (2, 3)):
         for n_ch in ((1, 2, 3) if th else (2, 3)):
@@ -1095,6 +1216,93 @@ def run_shard(shard, ctx):
                         run_case(dict(base, desc='cond', **mconf), ctx)
                         if th or mi == idx % 4:
                             run_case(dict(base, desc=None, **mconf), ctx)
+    elif kind == 'scale':
+        n_ch = shard['P']
+        sc = {k: shard[k] for k in ('scale', 'nscale') if shard[k]}
+        mconfs = _mconfs()
+        if shard['nscale']:
+            mconfs = [m for m in mconfs if m['method'] == 'mahalanobis' and m['prec'] != 'none']
+        if n_ch < 2:
+            mconfs = [m for m in mconfs if m['method'] != 'correlation']
+        parts = [p for n in (1, 2, 3) for p in _partitions(n)] + (_partitions(4) if th else _partitions(4)[1::3])
+        for idx, part in enumerate(parts):
+            n = len(part)
+            base = dict(sc, kind='single', form='single' if idx % 2 == 0 else 'list1', n=n, P=n_ch, part=part,
+                        naming=('desc', 'str', 'asc')[idx % 3], container='list' if idx % 2 else 'nd',
+                        dtype='int' if (idx % 3 == 2 and (shard['scale'] or 1) >= 1) else 'float',
+                        extra='const' if idx % 2 else 'vary', perm=list(range(n))[::-1], fill=0)
+            for mconf in mconfs:
+                run_case(dict(base, desc='cond', **mconf), ctx)
+                run_case(dict(base, desc=None, **mconf), ctx)
+        lconfs = [m for m in _mconfs(listnoise=True) if (not shard['nscale'] or (m['method'] == 'mahalanobis' and
+                                                                                  m['prec'] != 'none'))
+                  and not (m['method'] == 'correlation' and n_ch < 2) and (th or not m['rm'])]
+        for i1, part1 in enumerate(_partitions(2)):
+            for i2, part2 in enumerate(_partitions(2)):
+                for offset in ('same', 'shift', 'disjoint'):
+                    base = dict(sc, kind='pair', part1=part1, part2=part2, offset=offset, naming='desc',
+                                perm2='rev' if (i1 + i2) % 2 else 'id', P=n_ch, container='nd', dtype='float',
+                                extra='const', fill=0, desc='cond')
+                    for mconf in lconfs:
+                        run_case(dict(base, **mconf), ctx)
+        mv = [m for m in _mconfs(rm=False) if (not shard['nscale'] or (m['method'] == 'mahalanobis' and
+                                                                        m['prec'] != 'none'))
+              and not (m['method'] == 'correlation' and n_ch < 2)]
+        for bi, bins in enumerate((None, [[0, 1]], [[1], [0]])):
+            for pi, part in enumerate(_partitions(3)):
+                base = dict(sc, kind='movie', n=3, P=n_ch, nt=2, torder='asc', taxis=AXIS_ORDER[(bi + pi) % 8],
+                            bins=bins, binrep='arrays', tcont='nd', part=part, naming='desc', container='nd',
+                            extra='none', fill=0)
+                for mconf in mv:
+                    run_case(dict(base, desc='cond' if (bi + pi) % 3 else None, **mconf), ctx)
+    elif kind == 'labels':
+        tag, container = shard['tag'], shard['container']
+        confs = [{'method': 'euclidean', 'rm': False}, {'method': 'correlation', 'rm': False},
+                 {'method': 'mahalanobis', 'prec': 'full', 'rm': True},
+                 {'method': 'poisson', 'prior': [2, 0.5], 'rm': False}]
+        idx = 0
+        for n in range(1, 6 if th else 5):
+            for part in _partitions(n):
+                for perm in (list(range(n)), list(range(n))[::-1]):
+                    idx += 1
+                    base = {'kind': 'single', 'form': 'single' if idx % 3 else 'list1', 'n': n, 'P': 2 + idx % 2,
+                            'part': part, 'naming': tag, 'container': container, 'dtype': 'float',
+                            'extra': 'const' if idx % 2 else 'vary', 'perm': perm, 'fill': 0}
+                    for mconf in confs:
+                        run_case(dict(base, desc='cond', **mconf), ctx)
+                    run_case(dict(base, desc=None, **confs[0]), ctx)
+        lconfs = [{'method': 'euclidean', 'rm': False}, {'method': 'mahalanobis', 'prec': 'perds', 'rm': False}]
+        nmax = 4 if th else 3
+        for n1 in range(1, nmax + 1):
+            for n2 in range(1, nmax + 1):
+                for part1 in _partitions(n1):
+                    for part2 in _partitions(n2):
+                        for offset in ('same', 'shift', 'disjoint'):
+                            idx += 1
+                            base = {'kind': 'pair', 'part1': part1, 'part2': part2, 'offset': offset, 'naming': tag,
+                                    'perm2': 'rev' if idx % 2 else 'id', 'P': 2 + idx % 2, 'container': container,
+                                    'dtype': 'float', 'extra': 'const' if idx % 3 else 'none', 'fill': 0,
+                                    'desc': 'cond'}
+                            for mconf in lconfs:
+                                run_case(dict(base, **mconf), ctx)
+        for n in range(1, 5):
+            for perm2 in itertools.permutations(range(n)):
+                idx += 1
+                base = {'kind': 'stack', 'n': n, 'P': 2 + idx % 2, 'part': list(range(n)), 'naming': tag,
+                        'mode': 'unique', 'perm2': list(perm2), 'container': container, 'dtype': 'float',
+                        'extra': 'const' if idx % 2 else 'none', 'fill': 0, 'desc': None}
+                for mconf in confs[:2]:
+                    run_case(dict(base, **mconf), ctx)
+        for bins in _time_configs(2):
+            for n in (1, 2, 3):
+                for part in _partitions(n):
+                    idx += 1
+                    base = {'kind': 'movie', 'n': n, 'P': 2 + idx % 2, 'nt': 2, 'torder': 'asc',
+                            'taxis': AXIS_ORDER[idx % 8], 'bins': bins, 'binrep': 'arrays', 'tcont': 'nd',
+                            'part': part, 'naming': tag, 'container': container,
+                            'extra': 'const' if idx % 2 else 'none', 'fill': 0}
+                    for mconf in (confs[0], confs[3]):
+                        run_case(dict(base, desc='cond', **mconf), ctx)
     elif kind == 'sequence':
         n, n_ch = shard['n'], shard['P']
         movie = shard.get('nt') is not None
